@@ -537,9 +537,7 @@ class HttpProxyPlugin(HttpProtocolHandlerPlugin):
                 # https://developer.mozilla.org/en-US/docs/Web/HTTP/Headers/Connection
                 # connection headers are meant for communication between client and
                 # first intercepting proxy.
-                self.request.add_headers(
-                    [(b'Via', b'1.1 %s' % PROXY_AGENT_HEADER_VALUE)],
-                )
+                self._add_via_header(self.request)
                 # Disable args.disable_headers before dispatching to upstream
                 self.upstream.queue(
                     memoryview(
@@ -984,6 +982,15 @@ class HttpProxyPlugin(HttpProtocolHandlerPlugin):
     #
     # Internal methods
     #
+
+    @staticmethod
+    def _add_via_header(request: HttpParser) -> None:
+        """Appends ourselves to the Via header field, preserving
+        intermediaries already recorded by the client side."""
+        via = b'1.1 %s' % PROXY_AGENT_HEADER_VALUE
+        if request.has_header(b'via'):
+            via = request.header(b'via') + b', ' + via
+        request.add_header(b'Via', via)
 
     def _close_and_release(self) -> bool:
         if self.flags.enable_conn_pool:
